@@ -58,6 +58,11 @@ pub fn verify(
     stack_outputs: StackOutputs,
     proof: ExecutionProof,
 ) -> Result<u32, VerificationError> {
+    // the AIR is defined only for the VM's own trace layout and for trace lengths the field can
+    // accommodate; reject proofs declaring anything else before they reach code which takes these
+    // for granted
+    check_proof_context(&proof)?;
+
     // get security level of the proof
     let security_level = proof.security_level();
 
@@ -84,6 +89,37 @@ pub fn verify(
     .map_err(VerificationError::VerifierError)?;
 
     Ok(security_level)
+}
+
+// HELPER FUNCTIONS
+// ================================================================================================
+
+/// Checks that the trace layout and the trace length declared by the proof are the ones an
+/// execution trace of the VM can have.
+fn check_proof_context(proof: &ExecutionProof) -> Result<(), VerificationError> {
+    use air::trace::{AUX_TRACE_RAND_ELEMENTS, AUX_TRACE_WIDTH, MIN_TRACE_LEN, TRACE_WIDTH};
+    use math::StarkField;
+
+    let proof = proof.stark_proof();
+    let layout = proof.trace_layout();
+    let is_valid_layout = layout.main_trace_width() == TRACE_WIDTH
+        && layout.num_aux_segments() == 1
+        && layout.get_aux_segment_width(0) == AUX_TRACE_WIDTH
+        && layout.get_aux_segment_rand_elements(0) == AUX_TRACE_RAND_ELEMENTS;
+
+    let trace_length = proof.trace_length() as u64;
+    let max_trace_length = (1u64 << math::Felt::TWO_ADICITY) / proof.options().blowup_factor() as u64;
+    let is_valid_length = trace_length.is_power_of_two()
+        && trace_length >= MIN_TRACE_LEN as u64
+        && trace_length <= max_trace_length;
+
+    if is_valid_layout && is_valid_length {
+        Ok(())
+    } else {
+        Err(VerificationError::VerifierError(VerifierError::ProofDeserializationError(
+            "trace layout or trace length is not valid for a Miden VM execution trace".into(),
+        )))
+    }
 }
 
 // ERRORS
